@@ -18,6 +18,13 @@ CHECKS = {
                 "tag, incl. every dispatch target of the generic front ends (R4.2). Digest values, chunking associativity, Poly1305 carries "
                 "and HKDF chaining are not decided.",
     },
+    "C05": {
+        "engine": "PathAI (E1) + scalar-evolution byte coverage (E9)",
+        "technique": "path-sensitive must-check analysis over all dispatch targets + loop add-recurrence / exact trip-count coverage",
+        "text": "Static, for all inputs and every ladder the dispatch slot can hold: crypto_scalarmult_curve25519 reports success only if the "
+                "ladder returned 0 and the status is computed from an accumulator over exactly bytes [0, 32) of the output with no early exit "
+                "(the only failure report for the assembly ladder). RFC 7748 values, clamping, kx/box cross-equality are not decided.",
+    },
     "C06": {
         "engine": "PathAI (E1) + call-graph effects (E2)",
         "technique": "path-sensitive checklist analysis of the verifier + call-graph reachability / global-effect analysis of signing",
@@ -54,6 +61,15 @@ CHECKS = {
                 "preceded by the passed 16-byte MAC comparison (R9.1); push and pull have identical post-MAC state-update signatures incl. "
                 "the rekey condition on the REKEY bit and on the wrapped counter, the same Poly1305 transcript, and init_push/init_pull "
                 "agree (R9.2); short input refused, *mlen_p = 0 on failure (R9.3). Whole-history delivery/ordering is not decided.",
+    },
+    "C14": {
+        "engine": "scalar-evolution byte coverage (E9) + PathAI (E1, conditional constant propagation)",
+        "technique": "loop add-recurrence / trip-count coverage; constant-bound unrolling with data-dependence slice",
+        "text": "Static, for every length: sodium_memcmp / sodium_is_zero / sodium_compare read exactly [0, len) of each operand with unit "
+                "stride and an exact trip count (no early exit), crypto_verify_16/32/64 results depend on exactly bytes [0, N) of both operands "
+                "(SSE2 body; byte-wise body in the thorough/portable tier), and sodium_memzero / sodium_stackzero hand exactly the requested "
+                "(pointer, length) to a non-elidable wipe. The ordering value of sodium_compare and the carries of increment/add/sub are "
+                "not decided.",
     },
     "C15": {
         "engine": "PathAI (E1)",
